@@ -141,7 +141,6 @@ func jsonRoundTrips(t types.Type, self *types.Named) bool {
 func (e *Env) c11WriterReader(ai *types.Named) {
 	r := e.R
 	p := e.P
-	sy := e.symbolizer()
 	obW := r.Ob("R2", "writer:whole-record→AuditFilePath", "the writer serialises the IP's *AuditInfo with encoding/json and replaces the whole file at AuditFilePath()")
 	obR := r.Ob("R2", "reader:AuditFilePath→same-type", "the reader unmarshals the bytes read from the IP's AuditFilePath() into the same Go type")
 	w := p.Func("FileIP.WriteAuditLogToFile")
@@ -211,7 +210,7 @@ func (e *Env) c11WriterReader(ai *types.Named) {
 				continue
 			}
 			found = true
-			data := sy.InFunc(um, c.Call.Args[0]).String()
+			data := e.fsym().InFunc(um, c.Call.Args[0]).String() // (the read may sit in a private helper)
 			tgt := c.Call.Args[1]
 			if mi, ok := tgt.(*ssa.MakeInterface); ok {
 				tgt = mi.X
